@@ -3,7 +3,7 @@ import os, json, hashlib, collections
 import gen as G, run as R, trace as T
 
 VERIF = "/verif"
-SIZES = {"b1": 1, "w4": 4, "p4": 4, "s16": 16, "a32": 32, "big": 2048}
+SIZES = {"b1": 1, "w4": 4, "p4": 4, "s16": 16, "a32": 32, "big": 2048, "a16": 16}
 
 def corpus(mode, pid=None):
     """minimised past disagreements and every defect found on the pinned tree; run first"""
@@ -156,7 +156,7 @@ def panic_sweep(tier, seed, mode):
     return out
 
 def allocfail_sweep(tier, seed, mode):
-    base = short_sequences(tier, seed ^ 7, mode, ["w4", "s16", "big"])
+    base = short_sequences(tier, seed ^ 7, mode, ["w4", "s16", "big", "a32"])
     out = []
     for k in (range(1, 5) if tier == "quick" else range(1, 9)):
         out += rename(with_directive(base, "!allocfail_at %d" % k), "-a%d" % k)
@@ -173,6 +173,7 @@ def sentinel_sweep(mode):
             for seq in G.two_reg_ops() + G.iter_ops():
                 out.append(G.case("sent-%s-%d" % (cls, k), cls, mode, ctor + list(seq))); k += 1
             out.append(G.case("sent-%s-%d" % (cls, k), cls, mode, ctor + ["leak v0"])); k += 1
+            out.append(G.case("sent-%s-%d" % (cls, k), cls, mode, ctor + ["from_str 0", "from_str 3", "push v0 1"])); k += 1
             out.append(G.case("sent-%s-%d" % (cls, k), cls, mode, ctor + ["forget v0"])); k += 1
     return out
 
@@ -218,6 +219,9 @@ def clone_cases(tier, seed, mode):
         for label, pre in G.start_states(cls):
             for tail in (["drop v0", "push c 1", "pop c", "drop c"], ["drop c", "push v0 1", "pop v0"], ["push v0 1", "push c 2", "truncate v0 1", "compare v0 c"]):
                 out.append(G.case("cl-%s-%s-%d" % (cls, label, k), cls, mode, pre + ["clone v0 c"] + tail)); k += 1
+            for other in (["new c"], ["with_capacity c 3"], ["macro_list c 40 41"], ["macro_list c 40 41 42 43 44 45 46 47 48 49"], ["macro_list c 40", "pop c", "shrink_to_fit c"]):
+                out.append(G.case("clf-%s-%s-%d" % (cls, label, k), cls, mode, pre + other + ["clone_from c v0", "push c 1", "drop v0", "pop c"])); k += 1
+                out.append(G.case("clf-%s-%s-%d" % (cls, label, k), cls, mode, pre + other + ["clone_from v0 c", "drop c", "push v0 1", "pop v0"])); k += 1
             for f in range(0, 4):
                 for bk in range(0, 3):
                     steps = ["next it"] * f + ["next_back it"] * bk
@@ -278,7 +282,12 @@ def align_cases(tier, seed, mode):
             ["push v0 1", "split_off v0 0 c", "push c 5", "push v0 6", "drain_vec c d", "push d 7"],
             ["push v0 1", "into_iter v0 it", "next it", "drop it"],
             ["resize v0 9 4", "retain v0 mod2=0", "dedup v0", "shrink_to_fit v0", "insert v0 0 5"],
-            ["clone v0 c", "push c 1", "reserve_exact v0 17", "push v0 1"]]
+            ["clone v0 c", "push c 1", "reserve_exact v0 17", "push v0 1"],
+            ["extend v0 it[1,2,3]", "shrink_to_fit v0", "splice v0 I1 E2 it[7,8,9,10,11,12,13,14,15] it", "drop it", "push v0 1"],
+            ["push v0 1", "shrink_to_fit v0", "splice v0 U U it[7,8,9] it", "next it", "drop it"],
+            ["extend v0 it[1,2,3,4]", "shrink_to_fit v0", "insert v0 1 9", "shrink_to_fit v0", "extend_from_within v0 U U", "shrink_to_fit v0", "resize v0 30 1"],
+            ["push v0 1", "shrink_to_fit v0", "macro_list c 1 2 3 4 5", "append v0 c", "shrink_to_fit v0", "extend_from_slice v0 1 2 3", "shrink_to_fit v0", "resize_with v0 20 g[1]"],
+            ["deserialize_in_place v0 N sq[1,2,3,4,5,6,7,8,9]", "shrink_to_fit v0", "collect c it[1,2]", "append v0 c"]]
     for cls in G.CLASSES:
         for a in aligns:
             for n in (0, 1, 4):
@@ -330,11 +339,11 @@ def general(tier, seed, pid, modes=("debug",)):
 PROPS = {
     "C01": {"modules": ["MiniVecProof.Props.C01"],
             "cases": lambda tier, seed: general(tier, seed, "C01"),
-            "owned_oracles": ["O vec-mismatch", "macro-evals"], "owned_diffs": ["result", "contents", "panic"],
+            "owned_oracles": ["O vec-mismatch", "macro-evals", "X signal"], "owned_diffs": ["result", "contents", "panic", "crash"],
             "partial_missing": ["refinement lemma proved for push, pop; every other operation of the property is tied to Vec and to the model by the three-way correspondence only"]},
     "C02": {"modules": ["MiniVecProof.Props.C01", "MiniVecProof.Proofs.MemDrop"],
             "cases": lambda tier, seed: general(tier, seed, "C02"),
-            "owned_oracles": ["O ledger"], "owned_diffs": ["own"],
+            "owned_oracles": ["O ledger", "X signal"], "owned_diffs": ["own", "crash"],
             "partial_missing": ["exactly-once destruction proved for truncate, clear, Drop (dropVec_spec, truncate_spec); other operations by correspondence + per-element ledger"]},
     "C03": {"modules": ["MiniVecProof.Props.C01", "MiniVecProof.Proofs.MemDrop", "MiniVecProof.Props.C09"],
             "cases": lambda tier, seed: general(tier, seed, "C03", modes=("debug", "release")),
@@ -357,7 +366,7 @@ PROPS = {
             "partial_missing": ["storage stability proved for pop, truncate, clear (block and capacity unchanged in their specs); other operations by correspondence"]},
     "C08": {"modules": ["MiniVecProof.Props.C08"],
             "cases": lambda tier, seed: [("debug", corpus("debug", "C08") + align_cases(tier, seed, "debug")), ("release", align_cases(tier, seed, "release"))],
-            "owned_oracles": ["O align", "align-req", "O alloc layout-mismatch"], "owned_diffs": ["alloc", "result", "ub"]},
+            "owned_oracles": ["O align", "align-req", "O alloc layout-mismatch", "with-alignment-result", "X signal"], "owned_diffs": ["alloc", "result", "ub", "crash", "panic"]},
     "C09": {
         "modules": ["MiniVecProof.Props.C09"],
         "cases": lambda tier, seed: [("debug", corpus("debug", "C09") + huge_cases("debug")), ("release", corpus("release", "C09") + huge_cases("release"))],
@@ -378,11 +387,11 @@ PROPS = {
     },
     "C12": {"modules": ["MiniVecProof.Props.C01"],
             "cases": lambda tier, seed: [("debug", corpus("debug", "C12") + clone_cases(tier, seed, "debug"))],
-            "owned_oracles": ["O ledger", "O alloc", "X signal 11", "O vec-mismatch"], "owned_diffs": ["own", "contents", "result", "alloc", "ub", "crash"],
+            "owned_oracles": ["O ledger", "O alloc", "X signal", "O vec-mismatch"], "owned_diffs": ["own", "contents", "result", "alloc", "ub", "crash", "panic"],
             "partial_missing": ["clone / IntoIter::clone are hand-modelled and tied by correspondence with owning elements in both drop orders; no clone-specific theorem yet beyond the refinement lemmas the clone is built from (push)"]},
     "C14": {"modules": ["MiniVecProof.Props.C14"],
             "cases": lambda tier, seed: [("debug", corpus("debug", "C14") + raw_cases(tier, seed, "debug")), ("release", raw_cases(tier, seed, "release"))],
-            "owned_oracles": ["O rawparts", "O cap", "O ledger", "X signal", "O vec-mismatch"], "owned_diffs": ["ub", "result", "contents", "crash", "panic"]},
+            "owned_oracles": ["O rawparts", "O cap", "O ledger", "X signal", "O vec-mismatch", "rawparts-null", "O alloc"], "owned_diffs": ["ub", "result", "contents", "crash", "panic"]},
     "C17": {"modules": ["MiniVecProof.Props.C01"],
             "cases": lambda tier, seed: [("debug", corpus("debug", "C17") + hostile_cases(tier, seed, "debug"))],
             "owned_oracles": ["O ledger", "O alloc", "X signal 11"], "owned_diffs": ["own", "contents", "result", "alloc", "ub", "crash"],
@@ -484,12 +493,12 @@ def correspondence(pid, tier, seed, model_ok=True):
             for i, op in enumerate(ops):
                 for o in op.O + op.X + (["= " + op.result] if op.result in ("hang",) else []):
                     if any(o.startswith(p) for p in P.get("owned_oracles", [])):
-                        if o.startswith("X signal 6") and ("allocfail" in o or (op.result or "").startswith("abort")):
-                            continue      # the documented abort paths (allocation failure, double panic)
+                        if o.startswith("X signal 6") and ("allocfail" in o or ((op.result or "").startswith("abort-other") and "!panic_at" in text)):
+                            continue      # the documented abort paths: allocation failure; a panic while unwinding (only with an injected panic)
                         found.append((o.split()[1] if o.startswith("O ") else o.split()[0] + "-" + "-".join(o.split()[1:3]), i, o))
                     elif o.startswith("O "):
                         other_oracles[" ".join(o.split()[:2])] += 1
-            for kind, i, textv in T.orchestrator_oracles(ops, SIZES.get(cls, 4)):
+            for kind, i, textv in T.orchestrator_oracles(ops, SIZES.get(cls, 4), {"a32": 32, "a16": 16}.get(cls, 8)):
                 if kind in P.get("owned_oracles", []):
                     found.append((kind, i, textv))
                 else:
@@ -498,7 +507,7 @@ def correspondence(pid, tier, seed, model_ok=True):
             # call pattern is matched by known_findings.json and any other violation is still reported
             d11_from = None
             if pid == "C14":
-                ALIGN = {"b1": 8, "w4": 8, "p4": 8, "s16": 8, "big": 8, "a32": 32}
+                ALIGN = {"b1": 8, "w4": 8, "p4": 8, "s16": 8, "big": 8, "a32": 32, "a16": 16}
                 over = set()
                 for i, op in enumerate(ops):
                     a = op.args
